@@ -432,6 +432,94 @@ func c18Whole(c *hx.Ctx) {
 			}
 		}
 	}
+	// Large buffers: shared operands of 70 000 .. 1 000 000 digits. Products, squares and quotients of this size take
+	// scratch space of a megabyte and more, and the conversions to text work in digit buffers beyond 64 KiB - sizes at
+	// which a library may treat its buffers differently from the small ones above. Every goroutine runs every job.
+	{
+		lsizes := []int{1000000, 900000, 100000, 70000}
+		lops := make([]*decimal.Decimal, len(lsizes))
+		for i, n := range lsizes {
+			w := make([]decimal.Word, (n+18)/19) // (built from words: parsing a million digits takes half a minute under the race detector)
+			for k := range w {
+				w[k] = decimal.Word(r.U64() % wb)
+			}
+			w[len(w)-1] = decimal.Word(wb/10 + r.U64()%(wb-wb/10))
+			lops[i] = new(decimal.Decimal).SetPrec(uint(len(w)*19)).SetMode(decimal.RoundingMode(r.Mode())).SetBitsExp(w, int64(r.Range(-20, 20)))
+			if i == 1 {
+				lops[i].Neg(lops[i])
+			}
+		}
+		opIdx := func(name string) int {
+			for i, n := range c18OpNames {
+				if n == name {
+					return i
+				}
+			}
+			panic("no such operation: " + name)
+		}
+		ljobs := []c18Job{
+			{op: opIdx("Mul"), x: 0, y: 1, prec: 2000, mode: r.Mode()},
+			{op: opIdx("Sqr"), x: 0, prec: 500, mode: r.Mode()},
+			{op: opIdx("Mul"), x: 1, y: 0, prec: 40, mode: r.Mode()},
+			{op: opIdx("Quo"), x: 0, y: 2, prec: 150000, mode: r.Mode()},
+			{op: opIdx("Text"), x: 2}, {op: opIdx("Text"), x: 3}, {op: opIdx("MarshalText"), x: 2}, {op: opIdx("MarshalText"), x: 3},
+			{op: opIdx("Format"), x: 3}, {op: opIdx("Gob"), x: 3}, {op: opIdx("Cmp"), x: 0, y: 1}, {op: opIdx("Int"), x: 3},
+		}
+		lbefore := make([]hx.Raw, len(lops))
+		for i, o := range lops {
+			lbefore[i] = hx.RawOf(o)
+		}
+		sum := func(s string) string {
+			return fmt.Sprintf("%d bytes, hash %016x, starts %.60q", len(s), hx.HashStr(s), s)
+		}
+		lref := make([]string, len(ljobs))
+		for i, j := range ljobs {
+			caseNo++
+			c.Begin(caseNo, fmt.Sprintf("large buffers: sequential reference job %d %s(x=#%d y=#%d prec=%d) over operands of %v digits", i, c18OpNames[j.op], j.x, j.y, j.prec, lsizes))
+			lref[i] = sum(c18Exec(j, lops))
+		}
+		lreps := 1
+		if c.Tier == "thorough" {
+			lreps = 4
+		}
+		const lg = 4
+		for rep := 0; rep < lreps; rep++ {
+			caseNo++
+			c.Begin(caseNo, fmt.Sprintf("large buffers: %d goroutines x %d jobs over operands of %v digits, rep=%d", lg, len(ljobs), lsizes, rep))
+			start := make(chan struct{})
+			var wg sync.WaitGroup
+			for g := 0; g < lg; g++ {
+				wg.Add(1)
+				go func(g int) {
+					defer wg.Done()
+					<-start
+					for n := range ljobs {
+						ji := (n + (g/2)*5) % len(ljobs) // goroutines 2k and 2k+1: the same job at the same time
+						j := ljobs[ji]
+						if got := sum(c18Exec(j, lops)); got != lref[ji] {
+							if mon.mismatch.Add(1) == 1 {
+								mon.firstBad.Store(fmt.Sprintf("large buffers: job %d %s(x=#%d y=#%d prec=%d) over operands of %v digits in %d goroutines: concurrent result %s, sequential %s", ji, c18OpNames[j.op], j.x, j.y, j.prec, lsizes, lg, got, lref[ji]))
+							}
+						}
+					}
+				}(g)
+			}
+			close(start)
+			wg.Wait()
+			c.Eval(uint64(caseNo)<<20|uint64(c.Shard), true, "config/large-buffers")
+			c.Count("large_buffer_operations", int64(lg*len(ljobs)))
+			for i, o := range lops {
+				if !lbefore[i].Identical(hx.RawOf(o)) {
+					c.Violate("operand-modified", fmt.Sprintf("large buffers: shared operand %d (%d digits) changed during concurrent read-only use", i, lsizes[i]), "")
+					return
+				}
+			}
+			if mon.mismatch.Load() > 0 {
+				c.Violate("concurrent-result-differs", fmt.Sprintf("%d result(s) differ from the sequential ones; first: %v", mon.mismatch.Load(), mon.firstBad.Load()), "")
+				return
+			}
+		}
+	}
 	c.Count("overlapping_operations_on_a_shared_operand", mon.overlaps.Load())
 	distinct := 0
 	for a := range mon.pairSeen {
